@@ -62,10 +62,12 @@ class Framer:
         c.inv("bit_age_in_range", z3.ULT(f.age, div))
         c.inv("idle_line_ghosts_zero", z3.Implies(f.factive == 0, z3.And(f.bi == 0, f.age == 0)))
         if div > 1:
-            bc = ts.sig(prefix + "baud_counter")
-            c.inv("baud_counter_is_remaining_bit_time", z3.Implies(f.factive == 1, zx(bc, AW) == div - 1 - f.age))
-        c.inv("bits_to_send_is_remaining_bits", z3.Implies(f.factive == 1, ts.sig(prefix + "bits_to_send") == 9 - f.bi))
-        c.inv("shift_register_is_rest_of_frame", z3.Implies(f.factive == 1, ts.sig(prefix + "data_shift") == z3.LShR(f.frame, zx(f.bi, 10))))
+            # (conjuncts about the implementation's own counters / shifter: incidental registers, see Ctx.try_inv)
+            c.try_inv("baud_counter_is_remaining_bit_time",
+                      lambda: z3.Implies(f.factive == 1, zx(ts.sig(prefix + "baud_counter"), AW) == div - 1 - f.age))
+        c.try_inv("bits_to_send_is_remaining_bits", lambda: z3.Implies(f.factive == 1, ts.sig(prefix + "bits_to_send") == 9 - f.bi))
+        c.try_inv("shift_register_is_rest_of_frame",
+                  lambda: z3.Implies(f.factive == 1, ts.sig(prefix + "data_shift") == z3.LShR(f.frame, zx(f.bi, 10))))
 
     def ensures_tx(self, tx):
         c, f, div = self.c, self, self.div
